@@ -125,6 +125,18 @@ func ruleC19Null(c *Ctx) {
 			if ri.Reaches(r) {
 				ok = false
 			}
+			// the answer itself must not be the interface-level comparison (`val == nil` on the boxed value: false
+			// for a typed nil pointer) — as it is in a type-switch clause that lists several pointer types, where
+			// the clause variable keeps the interface type
+			for _, leaf := range phiLeaves(r.Results[0]) {
+				if bo, isB := leaf.(*ssa.BinOp); isB && (bo.Op == token.EQL || bo.Op == token.NEQ) {
+					for _, pair := range [][2]ssa.Value{{bo.X, bo.Y}, {bo.Y, bo.X}} {
+						if _, isIface := pair[0].Type().Underlying().(*types.Interface); isIface && isNilConst(pair[1]) {
+							ok = false
+						}
+					}
+				}
+			}
 		}
 		// an inspection by type assertions must cover every pointer type the symbols can box
 		usesReflect := false
